@@ -133,6 +133,10 @@ func (f *Frame) instr(b *ssa.BasicBlock, ins ssa.Instruction, st *State) {
 		ln := f.val(x.Len, st)
 		cp := f.val(x.Cap, st)
 		f.nopanic("makeslice_len", reach, fmt.Sprintf("(and (<= 0 %s) (<= %s %s))", ln.Term, ln.Term, cp.Term), x.Pos())
+		if es := elemSize(x.Type()); es > 0 {
+			// runtime.makeslice panics ("cap out of range") when cap*elemsize exceeds the largest allocation (2^48 bytes on amd64)
+			f.nopanic("makeslice_cap_allocatable", reach, fmt.Sprintf("(<= (* %d %s) %s)", es, cp.Term, maxAllocBytes), x.Pos())
+		}
 		loc := g.allocLoc(st)
 		el := g.sorts.sliceEl[s]
 		g.heapSet(st, h, fmt.Sprintf("(store %s %s %s)", g.heapGet(st, h), loc, g.zeroArray(el)))
